@@ -163,3 +163,66 @@ def run_case(src):
         except Exception as ex:  # noqa
             sers.append(("raise", E.exn_name(ex)))
     return ns, out, sers
+
+
+# ------------------------------------------------------------------ mapper matrix
+# mapper kind x where it is given x holder field renamed or not x nested inline structure / array / map of them /
+# inline structure inside an inline structure / class reference (with or without its own mapper) / array of class
+# references x nested keys renamed or not.  Deterministic; completeness is judged by the independent validator.
+
+M_KINDS = ["NONE", "CAMEL", "LOWER", "DICT", "CHAIN"]
+M_WHERE = ["class", "arg"]
+M_NESTED = ["sref", "array-sref", "map-sref", "sref-in-sref", "ref", "ref-own-mapper", "array-ref"]
+
+
+def matrix_case(mp, where, holder_renamed, kind, keys_renamed):
+    holder = "home_addr" if holder_renamed else "addr"
+    k1, k2 = ("street_name", "zip_code") if keys_renamed else ("street", "zip")
+    inner = "%s=String(minLength=1), %s=String(pattern='^[0-9]+$')" % (k1, k2)
+    val = "{%r: 'main', %r: '123'}" % (k1, k2)
+    pre = ""
+    if kind == "sref":
+        decl, inst = "StructureReference(%s)" % inner, val
+    elif kind == "array-sref":
+        decl, inst = "Array[StructureReference(%s)]" % inner, "[%s, %s]" % (val, val)
+    elif kind == "map-sref":
+        decl, inst = "Map[String, StructureReference(%s)]" % inner, "{'some_key': %s}" % val
+    elif kind == "sref-in-sref":
+        decl = "StructureReference(inner_part=StructureReference(%s), note_text=String())" % inner
+        inst = "{'inner_part': %s, 'note_text': 'n'}" % val
+    else:
+        own = "    _serialization_mapper = {%r: 'own_%s'}\n" % (k1, k1) if kind == "ref-own-mapper" else ""
+        pre = "class Addr(Structure):\n    %s = String(minLength=1)\n    %s = String(pattern='^[0-9]+$')\n%s" % (k1, k2, own)
+        aval = "Addr(%s='main', %s='123')" % (k1, k2)
+        decl, inst = ("Array[Addr]", "[%s, %s]" % (aval, aval)) if kind == "array-ref" else ("Addr", aval)
+    d = {}
+    if holder_renamed:
+        d[holder] = "HolderX"
+    if keys_renamed:
+        sub = {k1: "k1X"}
+        d[holder + "._mapper"] = {"inner_part._mapper": sub, "note_text": "nt"} if kind == "sref-in-sref" else sub
+    mtxt = {"NONE": "None", "CAMEL": "mappers.TO_CAMELCASE", "LOWER": "mappers.TO_LOWERCASE", "DICT": repr(d),
+            "CHAIN": "[%r, mappers.TO_CAMELCASE]" % (d,)}[mp]
+    src = pre + "class T(Structure):\n    first_name = String()\n    %s = %s\n" % (holder, decl)
+    if where == "class" and mp != "NONE":
+        src += "    _serialization_mapper = %s\n" % mtxt
+    src += "TOP = T\n"
+    if where == "arg" and mp != "NONE":
+        src += "MAPPER = %s\n" % mtxt
+    src += "INSTANCES = [T(first_name='ann', %s=%s)]\n" % (holder, inst)
+    name = "mapper-matrix/%s/%s/holder-%s/%s/keys-%s" % (mp, where, "renamed" if holder_renamed else "kept", kind,
+                                                        "renamed" if keys_renamed else "kept")
+    return name, src
+
+
+def matrix_cases():
+    out = []
+    for mp in M_KINDS:
+        for where in M_WHERE:
+            if mp == "NONE" and where == "arg":
+                continue
+            for hr in (False, True):
+                for kind in M_NESTED:
+                    for kr in (False, True):
+                        out.append(matrix_case(mp, where, hr, kind, kr))
+    return out
